@@ -71,8 +71,21 @@ def main():
     distinct = 0
     classes = {}
     sites = {}
+    # systematic leg: small workloads, EVERY schedule with <= 1 pre-emption and then every schedule with <= bound pre-emptions
+    # (up to a per-workload cap; capped workloads are counted as truncated, not as enumerated)
+    sys_bound = 3 if thorough else 2
+    sys_plan = {"semarun": 1600 if thorough else 96, "syncrun": 1600 if thorough else 96, "avalrun": 800 if thorough else 48}
+    sys_args = ["-sys", str(sys_bound), "-maxruns", "60000" if thorough else "3000"]
+    sysagg = {"sys_workloads": 0, "sys_workloads_enumerated_completely": 0, "sys_workloads_truncated": 0, "sys_diverged_runs": 0, "runs": 0}
     for cmd, total in plan:
         reps = sched.fanout(bins[cmd], total, 16, os.path.join(chk.work.dir, cmd + "-out"), start=chk.seed * 10000019, timeout=7200)
+        sreps = sched.fanout(bins[cmd], sys_plan[cmd], 16, os.path.join(chk.work.dir, cmd + "-sys-out"), extra_args=sys_args,
+                             start=chk.seed * 10000019, timeout=7200)
+        for r in sreps:
+            if "_crash" not in r:
+                for k in sysagg:
+                    sysagg[k] += r.get(k, 0)
+        reps = reps + sreps
         bykind = {}
         for r in reps:
             if "_crash" in r:
@@ -104,6 +117,13 @@ def main():
         p = os.path.join(core.V, "replays", fn, "replay.sh")
         if fn.startswith("C11-") and os.path.exists(p):
             os.chmod(p, 0o755)
+    if sysagg["sys_diverged_runs"]:
+        core.broken("systematic leg: %d runs did not follow their decision prefix (harness non-determinism)" % sysagg["sys_diverged_runs"])
+    chk.cov["systematic_leg"] = dict(sysagg, preemption_bound=sys_bound,
+                                     subspace="per small workload (<=3 threads x <=2 ops, <=2 waiters/workers/readers): every schedule with at most one pre-emption, then every "
+                                              "schedule with at most the stated number of pre-emptions in depth-first order up to the per-workload cap (decisions: which thread runs at "
+                                              "each lock/unlock/wait/signal/atomic, which waiter a Signal wakes); exhaustive is true only if no workload hit the cap",
+                                     exhaustive=(sysagg["sys_workloads_truncated"] == 0))
     chk.cov["evaluations"] = total_runs
     chk.cov["distinct_nontrivial"] = distinct
     chk.cov["failure_class_counts"] = classes
